@@ -110,7 +110,22 @@ func sentinelSlice(n, c int, vals ...any) []any {
 // sentinel values in the hidden tail, and overlapping slices. id selects the
 // shape; the result is freshly built on every call.
 func aliasedInput(id int) (input any, variable any) {
-	switch id % 8 {
+	if id%10 >= 8 {
+		// large containers: algorithms that switch strategy with size (sorting, growing, copying in blocks)
+		big := sentinelSlice(120, 200)
+		for i := range big {
+			big[i] = (i * 37) % 101
+		}
+		obj := map[string]any{}
+		for i := 0; i < 70; i++ {
+			obj[fmt.Sprintf("k%02d", i)] = i
+		}
+		if id%10 == 8 {
+			return map[string]any{"a": big, "b": big[:60], "c": obj, "d": big[100:]}, []any{big[:3], obj}
+		}
+		return []any{big, obj, big[10:20], []any{obj, big}}, big
+	}
+	switch id % 10 {
 	case 0:
 		a := sentinelSlice(3, 8, 1, 2, 3)
 		return map[string]any{"a": a, "b": a, "c": a[:2], "d": a[1:]}, []any{a, a[:1]}
@@ -408,14 +423,14 @@ func init() {
 		Body: func(c *run.Ctx) {
 			r := c.Rand("c05")
 			for _, src := range c05Hand {
-				for a := 0; a < 8; a++ {
+				for a := 0; a < 10; a++ {
 					kC05.Do(c, c05Case{Src: src, Alias: a})
 					kC05.Do(c, c05Case{Src: src, Alias: a, Abandon: 1})
 				}
 			}
 			for _, src := range sweepPrograms(r, c.N(4, 40)) {
-				kC05.Do(c, c05Case{Src: src, Alias: r.IntN(8)})
-				kC05.Do(c, c05Case{Src: src, Alias: r.IntN(8)})
+				kC05.Do(c, c05Case{Src: src, Alias: r.IntN(10)})
+				kC05.Do(c, c05Case{Src: src, Alias: r.IntN(10)})
 			}
 			small := gen.USmall()
 			n := c.N(12000, 300000)
@@ -428,7 +443,7 @@ func init() {
 				default:
 					src = g.Program(2 + r.IntN(2))
 				}
-				cs := c05Case{Src: src, Alias: r.IntN(8), Abandon: []int{0, 0, 1, 2}[r.IntN(4)]}
+				cs := c05Case{Src: src, Alias: r.IntN(10), Abandon: []int{0, 0, 1, 2}[r.IntN(4)]}
 				if r.IntN(4) == 0 {
 					cs.Alias = -1
 					cs.Input = &run.TV{V: small[r.IntN(len(small))]}
@@ -439,7 +454,7 @@ func init() {
 				for _, in := range cs.Inputs {
 					kC05.Do(c, c05Case{Src: cs.Query, Alias: -1, Input: &run.TV{V: in}})
 				}
-				kC05.Do(c, c05Case{Src: cs.Query, Alias: r.IntN(8)})
+				kC05.Do(c, c05Case{Src: cs.Query, Alias: r.IntN(10)})
 			}
 		},
 	})
